@@ -101,6 +101,11 @@ impl W18 {
         for room in [&r0, &r1] {
             for e in ENTS {
                 for d in 0..2 {
+                    // one cell stays without a shared row (second room, ns.Q, first day): a target updated or deleted
+                    // there EMPTIES its cell, which must be announced like any other change
+                    if room.id == r1.id && e == "ns.Q" && d == 0 {
+                        continue;
+                    }
                     k += 1;
                     set_clock(day_clock(d) - 9000 - k);
                     u.peers[0].mutate(&format!("mutate {{ {} {{ room_id:$r name:\"shared\" }} }}", e), Some(params(&[("r", b64(&room.id))]))).await?;
